@@ -39,6 +39,10 @@ pub struct Case {
     /// a deliberately deep import graph among the helper modules next to one conftest.py
     #[serde(default)]
     pub web: Option<Web>,
+    /// the client opens the sub-folder `a/` of the tree as its workspace: helper modules in the
+    /// directory above stay reachable through absolute and `..` imports only
+    #[serde(default)]
+    pub open_at_sub: bool,
 }
 
 /// Import web: nodes 0 = a conftest.py, 1..=4 = helper modules in its directory; `edges` are import
@@ -99,12 +103,27 @@ pub fn cfg() -> GenCfg {
 
 pub fn case() -> impl Strategy<Value = Case> {
     let web = (any::<u8>(), vec((0u8..5, 0u8..4, 0u8..4), 2..=7), 0u8..4).prop_map(|(dir, edges, def_at)| Web { dir, edges, def_at });
-    (workspace(cfg()), vec(0u8..5, 4), vec(0u8..3, 4), 0u8..8, prop_oneof![2 => Just(false), 1 => Just(true)], prop_oneof![1 => Just(None), 1 => web.prop_map(Some)])
-        .prop_map(|(ws, tp_layout, plug_layout, outside_mask, with_pytest_internal, web)| Case { ws, tp_layout, plug_layout, outside_mask, with_pytest_internal, web })
+    (workspace(cfg()), vec(0u8..5, 4), vec(0u8..3, 4), 0u8..8, prop_oneof![2 => Just(false), 1 => Just(true)], prop_oneof![1 => Just(None), 1 => web.prop_map(Some)], prop_oneof![3 => Just(false), 1 => Just(true)])
+        .prop_map(|(ws, tp_layout, plug_layout, outside_mask, with_pytest_internal, web, open_at_sub)| Case { ws, tp_layout, plug_layout, outside_mask, with_pytest_internal, web, open_at_sub })
 }
 
 /// the workspace the model and the disk see: some plugins moved outside, _pytest added
+pub fn opens_sub(c: &Case) -> bool {
+    c.open_at_sub && c.ws.files.iter().any(|f| f.loc.dir == 1 && (f.loc.is_conftest() || f.loc.is_test()))
+}
+
 pub fn effective_ws(c: &Case) -> WorkspaceSpec {
+    if opens_sub(c) {
+        // what lies outside `a/`: only helper modules of the top directory survive (no conftest, no
+        // tests, no sibling directory `x`, no virtualenv: all of that belongs to another workspace)
+        let mut base = c.ws.clone();
+        base.files.retain(|f| match f.loc.kind {
+            FileKind::Plugin(_) | FileKind::ThirdParty(_) => false,
+            FileKind::Helper(_) => f.loc.dir != 4,
+            _ => f.loc.dir != 0 && f.loc.dir != 4,
+        });
+        return with_probes(&base, cfg().names);
+    }
     let mut base = c.ws.clone();
     if let Some(w) = &c.web {
         apply_web(&mut base, w);
@@ -134,7 +153,12 @@ pub fn check_case(c: &Case, info: &mut CaseInfo) -> Outcome {
         Err(e) => return Outcome::Fail(format!("cannot materialise: {}", e)),
     };
     let db = FixtureDatabase::new();
-    db.scan_workspace(Path::new(&disk.root));
+    if opens_sub(c) {
+        info.classes.push("workspace opened at a sub-folder".into());
+        db.scan_workspace(Path::new(&format!("{}/a", disk.root)));
+    } else {
+        db.scan_workspace(Path::new(&disk.root));
+    }
     // map implementation definitions back to the model by (disk path, line)
     let path_of: Vec<String> = (0..ws.files.len()).map(|i| disk.path(&ws.files[i].loc)).collect();
     let to_id = |d: &pytest_language_server::FixtureDefinition| -> Option<DefId> {
